@@ -47,7 +47,9 @@ TEXT = {
                  "the body exactly once, under the per-call lock and with exactly the effective keyword arguments, returns what the body returned (key-override wrapper removed) or the exception it raised, "
                  "memoizes at most once with result_type = from_object(value) and the body's override key; RemoteCallException / NonMemoizedException (and subclasses) are re-raised and never memoized; "
                  "an IOError while reading falls back to recomputation and an IOError while writing is swallowed.",
-        "note": "Partial: ResultType.from_object, the MementoException name round trip, forget and the storage/codec value round trip are assumed contracts here (storage side proved under C05/C07). "
+        "note": "Partial: ResultType.from_object, forget and the storage/codec value round trip are assumed contracts here (storage side proved under C05/C07). The exception name round trip is proved: "
+                "MementoException.from_exception records language::module:qualified-name, __init__ accepts exactly such names (regex from the source, translated mechanically), to_exception rebuilds an instance of the "
+                "class reached by walking the qualified name from the module, from the recorded message, or returns itself (other language / not a class / constructor needs other arguments). "
                 "Assumed: deterministic bodies; bodies do not forget; store reads return the memoized value of the key. Observation (not claimed): with ignore_result a memoized exception is replayed as None.",
         "technique": "contract-based deductive verification: own VC generator over the real source + z3/cvc5",
     },
